@@ -33,7 +33,10 @@ CLAIMED["C14"] = ("exploration", "3", "seeded operation histories over pools of 
 CLAIMED["C04"] = ("exploration", "3", "seeded producer/consumer histories (arithmetic with every partner type in both orders, functions, reweight/correlate/merge, fits, roots, integrals, json/dobs/pickle/jackknife round trips, covariance inputs, malformed requests, interrupted operations); the representation invariant is evaluated on every returned object and on all pool objects after every step",
          "deterministic simulation: operation histories + interrupt injection + representation-invariant monitor",
          "invariant transcribed from the statement; ** restricted to real observables/numbers; sampling, not proof")
-PENDING = {k: "claimed in DESIGN.md (deterministic simulation); check under construction, not yet registered" for k in ["C11","C12","C13"]}
+CLAIMED["C13"] = ("exploration", "3", "seeded sessions of jackknife/bootstrap exports and imports with global-RNG perturbations in between; every default (name-seeded) random-number table is recomputed by a partner interpreter under another PYTHONHASHSEED and RNG state; exact leave-one-out / resampled-mean oracles",
+         "deterministic simulation: RNG state and process identity as part of the history + partner interpreter",
+         "the name-seeding clause is the simulator-specific one, the resampling identities ride along as sampled inputs")
+PENDING = {k: "claimed in DESIGN.md (deterministic simulation); check under construction, not yet registered" for k in ["C11","C12"]}
 def main():
     checks = []
     for pid, (cat, ref, text, tech, note) in sorted(CLAIMED.items()):
